@@ -52,12 +52,48 @@ def decide(run, prop, recs, res, errors, theorems, which):
 
 def run(run, args):
     formlib.prepare(run)
-    plan = [("exh", 4, 0), ("rand", 4000 * run.scale, 10000000)] if run.tier == "quick" else [("exh", 5, 0), ("rand", 60000 * run.scale, 10000000)]
+    plan = ([("exh", 4, 0), ("keys", 0, 5000000), ("rand", 4000 * run.scale, 10000000)] if run.tier == "quick"
+            else [("exh", 5, 0), ("keys", 0, 5000000), ("rand", 60000 * run.scale, 10000000)])
     recs = gather(run, plan)
     res, errors = formlib.evaluate("C05", recs, shard=3000)
     run.cov["rule"] = ("every string up to length %d over the 14-character alphabet {C l H X e 2 0 [ ] ( ) space e-acute arabic-indic-3} (exhaustive), "
-                       "plus random strings and one/two-edit mutations (delete, insert, duplicate, transpose, replace; junk incl. superscript-2 and "
+                       "every table key (pseudo-elements included) alone, grouped, counted, bracketed, case-folded and next to C/H, plus random strings and one/two-edit mutations (delete, insert, duplicate, transpose, replace; junk incl. superscript-2 and "
                        "a 4-byte digit) of grammar-generated formulas; each through 8 entry points; non-trivial = parsed to >= 2 keys or length > 3"
                        % plan[0][1])
     run.cov["exhaustive"] = False
+    sweep(run, recs, res)
     decide(run, "C05", recs, res, errors, THEOREMS, "c05")
+
+
+def sweep(run, recs, res):
+    """The same verdict, extracted to OCaml, over every string of a longer length; cross-checked against vm_compute on the short ones."""
+    ok, log = formlib.build_extracted()
+    run.oblige("extracted evaluator builds (Extraction of FormulaCheck verdict, ExtrOcamlBasic only)", ok, log[-400:] if not ok else "")
+    if not ok:
+        violation(run, {"broken": "extraction of the formula model", "detail": log}, nofail=True)
+    top = 5 if run.tier == "quick" else 7
+    jobs = [(0, 4)] + [(k, n) for n in range(5, top + 1) for k in range(1, 15)]
+    total, tie, holds, kind, err = formlib.extracted_sweep(jobs)
+    run.oblige("extracted sweep ran", not err, err)
+    if err:
+        violation(run, {"broken": "extracted sweep", "detail": err}, nofail=True)
+    by_id = {r["id"]: r for r in recs}
+    vm_tie = {by_id[i]["s"] for i in res[0] if by_id[i]["mode"] == "exh" and len(by_id[i]["s"]) <= 4}
+    vm_holds = {by_id[i]["s"] for i in res[1] if by_id[i]["mode"] == "exh" and len(by_id[i]["s"]) <= 4}
+    ex_tie = {r["s"] for r in tie if len(r["s"]) <= 4}
+    ex_holds = {r["s"] for r in holds if len(r["s"]) <= 4}
+    run.oblige("extracted evaluator and vm_compute give the same verdicts on every string of length <= 4",
+               vm_tie == ex_tie and vm_holds == ex_holds, "tie %d/%d holds %d/%d" % (len(vm_tie), len(ex_tie), len(vm_holds), len(ex_holds)))
+    run.cov["extracted_sweep"] = {"strings": total, "max_length_exhaustive": top, "tie_mismatches": len(tie), "spec_failures": len(holds),
+                                  "error_kind_differences": kind, "shards": len(jobs)}
+    run.cov["rule"] += "; additionally EVERY string of length <= %d over that alphabet (%d strings) judged by the extracted evaluator" % (top, total)
+    run.oblige("specification holds on every implementation outcome of the extracted sweep", not holds, "%d fail" % len(holds))
+    run.oblige("correspondence on the extracted sweep", not tie, "%d differ" % len(tie))
+    if holds:
+        violation(run, {"failing_input": holds[0], "found_by": "extracted exhaustive sweep",
+                        "what": "an entry point panicked, accepted text that is not a well-formed formula, rejected a well-formed one, or returned "
+                                "a composition other than the denoted one", "all_failing": [h["s"] for h in holds[:40]]})
+    if vm_tie != ex_tie or vm_holds != ex_holds:
+        violation(run, {"broken": "extracted evaluator disagrees with vm_compute", "only_vm": sorted(vm_tie ^ ex_tie)[:20], "holds": sorted(vm_holds ^ ex_holds)[:20]}, nofail=True)
+    if tie:
+        violation(run, {"broken": "correspondence model/implementation (extracted sweep)", "tie_breaking_case": tie[0], "all": [t["s"] for t in tie[:40]]}, nofail=True)
